@@ -92,6 +92,9 @@ pub enum Op {
     NodeLabelC(u8),
     /// write UserLabel::LabelList of endpoint 0
     UserLabelC(u8),
+    /// GroupKeyManagement::KeySetRemove(0x42) / Groups::RemoveAllGroups on fabric n
+    KeySetRemoveC(u8),
+    RemoveAllGroupsC(u8),
 }
 
 /// Node-level settings next to the fabric table: bindings (fabric-scoped entries of one registry),
@@ -513,7 +516,7 @@ impl World {
             }
             let all: Vec<u8> = memory_config(self.md()).iter().map(|f| f.idx).collect();
             for f in fabs {
-                v.extend([Op::ArmC(f), Op::Arm0C(f), Op::CompleteC(f), Op::AclC(f), Op::GroupKeyC(f), Op::GroupMapC(f), Op::AddGroupC(f)]);
+                v.extend([Op::ArmC(f), Op::Arm0C(f), Op::CompleteC(f), Op::AclC(f), Op::GroupKeyC(f), Op::GroupMapC(f), Op::AddGroupC(f), Op::KeySetRemoveC(f), Op::RemoveAllGroupsC(f)]);
                 if self.c07 || self.c11 {
                     v.push(Op::BindingC(f));
                 }
@@ -597,6 +600,7 @@ impl World {
     fn apply_inner(&mut self, op: Op) -> Result<(), String> {
         let c = nodes::crypto(SeededRng::new(777));
         let store_failures_before = self.kv.0.borrow().failures;
+        let log_len_before = self.kv.log_len();
         let was_armed = self.model.armed_by;
         match op {
             Op::Tick => {
@@ -666,6 +670,8 @@ impl World {
                     Op::RemoveFabricC(f, g) => (f, false, false, commdrv::remove_fabric(g)),
                     Op::GroupKeyC(f) => (f, false, false, commdrv::key_set_write(0x42)),
                     Op::GroupMapC(f) => (f, true, false, commdrv::write_group_key_map(&[(0x0101, 0x42)])),
+                    Op::KeySetRemoveC(f) => (f, false, false, commdrv::key_set_remove(0x42)),
+                    Op::RemoveAllGroupsC(f) => (f, false, false, commdrv::remove_all_groups()),
                     Op::AddGroupC(f) => (f, false, false, commdrv::add_group(0x0101, "grp-\u{e9}")),
                     Op::BindingC(f) => {
                         // a target node id that names the incarnation of the fabric it is written for
@@ -778,7 +784,7 @@ impl World {
         // a change made by the administrator of a fabric that the pending commissioning does not
         // concern is an ordinary committed change of that fabric, armed fail-safe or not
         let touched = match op {
-            Op::AclC(f) | Op::LabelC(f) | Op::VidStmtC(f) | Op::GroupKeyC(f) | Op::GroupMapC(f) | Op::AddGroupC(f) => Some(f),
+            Op::AclC(f) | Op::LabelC(f) | Op::VidStmtC(f) | Op::GroupKeyC(f) | Op::GroupMapC(f) | Op::AddGroupC(f) | Op::KeySetRemoveC(f) | Op::RemoveAllGroupsC(f) => Some(f),
             Op::RemoveFabricC(_, g) => Some(g),
             _ => None,
         };
@@ -808,7 +814,10 @@ impl World {
             let pending_fabric = if matches!(op, Op::VidStmtC(_)) { self.model.noc_fabric } else { self.model.noc_fabric.or(if by != 0 { Some(by) } else { None }) };
             // (a fabric removal is immediate and permanent whatever the fail-safe says)
             independent = pending_fabric != Some(f) || matches!(op, Op::RemoveFabricC(..));
-            if independent && !store_failed {
+            // (a fabric whose memory image is ahead of the store - a refused change - is only reconciled by an
+            // operation that really writes it: one that is answered without a store call changes nothing durable)
+            let reconciles = !self.dirty_fabs.contains(&f) || self.kv.log_len() > log_len_before;
+            if independent && !store_failed && reconciles {
                 match cfg.fabrics.iter().find(|x| x.idx == f) {
                     Some(new) => {
                         if let Some(old) = self.committed.fabrics.iter_mut().find(|x| x.idx == f) {
@@ -836,7 +845,7 @@ impl World {
         }
         if matches!(op, Op::Restart) {
             self.dirty_fabs.clear();
-        } else if independent && !store_failed && self.last_ok {
+        } else if independent && !store_failed && self.last_ok && self.kv.log_len() > log_len_before {
             // (a fabric is persisted as a whole: a store that succeeds brings the two images of *that* fabric together again)
             if let Some(f) = touched {
                 self.dirty_fabs.remove(&f);
@@ -1467,7 +1476,7 @@ pub fn parse_op(s: &str) -> Option<Op> {
                 return Some(Op::RemoveFabricC(f, g));
             }
         }
-        for o in [Op::ArmC(f), Op::Arm0C(f), Op::CsrUpdC(f), Op::UpdNocC(f), Op::AclC(f), Op::LabelC(f), Op::VidStmtC(f), Op::CompleteC(f), Op::OpenWindowC(f), Op::RevokeC(f), Op::GroupKeyC(f), Op::CsrC(f), Op::RootC(f), Op::AddNocC(f), Op::GroupMapC(f), Op::AddGroupC(f), Op::BindingC(f), Op::NodeLabelC(f), Op::UserLabelC(f)] {
+        for o in [Op::ArmC(f), Op::Arm0C(f), Op::CsrUpdC(f), Op::UpdNocC(f), Op::AclC(f), Op::LabelC(f), Op::VidStmtC(f), Op::CompleteC(f), Op::OpenWindowC(f), Op::RevokeC(f), Op::GroupKeyC(f), Op::CsrC(f), Op::RootC(f), Op::AddNocC(f), Op::GroupMapC(f), Op::AddGroupC(f), Op::BindingC(f), Op::NodeLabelC(f), Op::UserLabelC(f), Op::KeySetRemoveC(f), Op::RemoveAllGroupsC(f)] {
             if format!("{:?}", o) == s {
                 return Some(o);
             }
